@@ -131,7 +131,11 @@ fn serve_inner<
         );
     }
 
-    let last_modified = ent.last_modified();
+    // HTTP-dates (as `httpdate` formats and parses them) can't express times before the Unix
+    // epoch; `fmt_http_date` panics on them. Treat such a modification time as the epoch itself.
+    let last_modified = ent
+        .last_modified()
+        .map(|m| std::cmp::max(m, SystemTime::UNIX_EPOCH));
     let etag = ent.etag();
 
     let (precondition_failed, not_modified) =
